@@ -25,6 +25,7 @@ type Config struct {
 	Rep        *eng.Reporter
 	Raw        bool
 	Bootstrap  bool
+	Whale      bool       // add the deterministic extreme-magnitude segment after the bootstrap
 	App        *chain.App // optional pre-built app
 	SeedTag    string
 	// Quiesce is called every QuiesceEvery transactions with the chain committed (between blocks).
@@ -80,6 +81,9 @@ func Exec(c Config) (res Result) {
 	refresh()
 	if c.Bootstrap {
 		g.Bootstrap(e, refresh)
+		if c.Whale {
+			g.BootstrapWhale(e, refresh)
+		}
 	}
 	every := c.Profile.BlockEvery
 	if every <= 0 {
